@@ -1,8 +1,8 @@
 (* Hand-written model of the multi-fact form (generator.py _generate_with_preaggregation 1349-1565): one sub-query per metric
    model at the dimension grain (each is an ordinary query: Model/Plan.v + Model/Join.v), then FULL OUTER JOIN of every later
    sub-query with the FIRST one on NULL-safe equality of all dimension columns (CROSS JOIN when there are no dimensions),
-   COALESCE of the dimension columns, metrics taken from their own sub-query.  Filters: a filter on a metric model goes to that
-   model's sub-query only; any other filter lands in the outer WHERE, where its table is not in scope.  No proofs here. *)
+   COALESCE of the dimension columns, metrics taken from their own sub-query.  Filters: every row filter of the query -- on a metric model or on
+   a model that is only filtered on -- goes to EVERY sub-query (each joins the filtered model), so it restricts every metric.  No proofs here. *)
 From Coq Require Import ZArith String List Bool.
 Require Import V.Base.PyLib V.Model.Graph V.Model.Sem V.Model.Single V.Model.Mult V.Model.Join V.Model.Plan.
 Import ListNotations.
@@ -48,13 +48,10 @@ Definition run_multifact (h : val -> Z) (ms : list pmodel) (q : pquery) : mf_res
   if negb (needs_multifact (graph_of ms) q) then MfNotMultiFact
   else
   let mm := metric_models q in
-  (* a filter on a model that contributes no metric is emitted in the outer WHERE against a table that is not in scope *)
-  if existsb (fun f => negb (existsb (String.eqb (pf_model f)) mm)) (pq_filters q) then MfUnbound
-  else
   let subs := map (fun m =>
                 let subq := {| pq_dims := pq_dims q;
                                pq_metrics := filter (fun x => String.eqb (pmt_model x) m) (pq_metrics q);
-                               pq_filters := filter (fun f => String.eqb (pf_model f) m) (pq_filters q) |} in
+                               pq_filters := pq_filters q |} in
                 match plan ms subq with
                 | PlanOk jq _ => run_join h jq
                 | _ => None end) mm in
